@@ -50,6 +50,9 @@ type C02Op struct {
 	B  int `json:"b,omitempty"`
 	C  int `json:"c,omitempty"`
 	R2 int `json:"r2,omitempty"`
+	// E (c02_r6.go): what the callback RETURNS: 0 nil; 1 an error for every
+	// target its filter F selects; 2 an error for every second such target
+	E int `json:"e,omitempty"`
 }
 
 type C02Spec struct {
@@ -57,6 +60,9 @@ type C02Spec struct {
 	// LastOnly: dump the table only after the last op (long histories: rows
 	// of hundreds of cells, tables of hundreds of rows)
 	LastOnly bool `json:"last_only,omitempty"`
+	// Via (c02_r6.go): how the table value the program builds and looks at is
+	// obtained - the core table, or a stack of rendering wrappers around it
+	Via *C02Via `json:"via,omitempty"`
 }
 
 // the text of the item with id x: id 0 is the empty string; equal ids are
@@ -481,7 +487,7 @@ type c02Dump struct {
 }
 
 // dumpTable reads everything C02 talks about through the public API.
-func dumpTable(t *tabular.ATable) c02Dump {
+func dumpTable(t tabular.Table) c02Dump {
 	var d c02Dump
 	var b []byte
 	d.NRows, d.NCols = t.NRows(), t.NColumns()
@@ -578,6 +584,8 @@ type c02Result struct {
 	// inside another one, and the whole history, one bracket per program call
 	Nested  int    `json:"nested_building_calls,omitempty"`
 	History string `json:"history_with_nested_calls,omitempty"`
+	// errors the program's add-time callbacks returned (c02_r6.go)
+	CBErrors int `json:"errors_returned_by_callbacks,omitempty"`
 }
 
 func c02GoLine(op C02Op) string {
@@ -734,6 +742,12 @@ type c02Outcome struct {
 // c02Exec runs the program on real tables and dumps each table after every op
 // of ITS history (or once at the end).
 func c02Exec(prog []C02Op, lastOnly bool) (out c02Outcome) {
+	return c02ExecVia(prog, lastOnly, nil)
+}
+
+// c02ExecVia: the same, the building calls made on and the table looked at
+// through the values via yields (c02_r6.go)
+func c02ExecVia(prog []C02Op, lastOnly bool, via *C02Via) (out c02Outcome) {
 	ops := make([]C02Op, len(prog))
 	for i, op := range prog {
 		op.Xs = append([]int{}, op.Xs...)
@@ -741,18 +755,23 @@ func c02Exec(prog []C02Op, lastOnly bool) (out c02Outcome) {
 	}
 	_, per, ntables := c02Derive(ops)
 	out.ntables = ntables
-	tabs := []*tabular.ATable{tabular.New()}
+	tb0, ob0, mk0 := via.make("t")
+	tabs := []tabular.Table{tb0}
+	obsTabs := []tabular.Table{ob0}
 	if ntables == 2 {
-		tabs = append(tabs, tabular.New())
+		tb1, ob1, _ := via.make("t2")
+		tabs = append(tabs, tb1)
+		obsTabs = append(obsTabs, ob1)
 	}
 	vars := map[int]*tabular.Row{}
 	var varOrder []int
 	var in [2]map[int]bool
 	in[0], in[1] = map[int]bool{}, map[int]bool{}
 	res := &out.res
-	lines := []string{"t := tabular.New()"}
+	lines := []string{mk0}
 	if ntables == 2 {
-		lines = append(lines, "t2 := tabular.New()")
+		_, _, mk1 := via.make("t2")
+		lines = append(lines, mk1)
 	}
 	for i := 0; i < len(ops); {
 		j := i + 1
@@ -832,7 +851,7 @@ func c02Exec(prog []C02Op, lastOnly bool) (out c02Outcome) {
 		return its
 	}
 	dump := func(t int) {
-		d := dumpTable(tabs[t])
+		d := dumpTable(obsTabs[t])
 		if lastOnly {
 			out.dumps[t] = d.bytes
 		} else {
@@ -1098,6 +1117,9 @@ func c02Tags(ops []C02Op, res c02Result) []string {
 			add("callback-makes-building-calls")
 			add(fmt.Sprintf("callback-registered=%d", op.W))
 			add(fmt.Sprintf("callback-does=%d", op.A))
+			if op.E != 0 {
+				add("callback-returns-an-error")
+			}
 		}
 		for _, kind := range append([]int{op.K}, op.Ks...) {
 			switch kind {
@@ -1188,6 +1210,10 @@ func c02Size(ops []C02Op) int {
 			if op.F != 0 {
 				n++
 			}
+			if op.A != 9 {
+				n++
+			}
+			n += op.E
 		}
 		for _, k := range op.Ks {
 			if k != 0 {
@@ -1332,6 +1358,17 @@ func c02Shrink(ops []C02Op) [][]C02Op {
 				c := append([]C02Op{}, ops...)
 				c[k].F = 0
 				out = append(out, c)
+			}
+			// a callback that returns nil / makes no building call
+			if ops[k].E != 0 {
+				c := append([]C02Op{}, ops...)
+				c[k].E = ops[k].E - 1
+				out = append(out, c)
+				if ops[k].A != 9 {
+					c := append([]C02Op{}, ops...)
+					c[k].A = 9
+					out = append(out, c)
+				}
 			}
 		}
 		// everything on the first table
@@ -1654,12 +1691,16 @@ func init() {
 			"the callback appends one or two cells to the row it is called for, to another row, adds a separator, a row, a pre-built row, a new header, for header rows only / body rows only / both, a bounded number of times) " +
 			"and may add cells later to a header row such a callback was handed (also one that has been replaced): every call, the program's or a callback's, is logged when it is made and that log is the history; the table is then dumped after every call of the PROGRAM (Spec/HistorySegs.v); " +
 			"a program may build two tables and pass one *Row to both tables' AddRow (each table is then judged on its own history, in which the other table's AddRow is the op OtherAddRow); " +
+			"the table VALUE may be the core table or a stack of 1..3 rendering wrappers around it (csv, html, json, markdown, texttable by Wrap or by the package's New, auto.New / auto.Wrap of 8 style strings), all building calls made on one level of the stack and the table looked at through the same or another level (c02_r6.go); " +
+			"an add-time callback may return an error (for every / every second target) and may make no building call at all; " +
 			"the table is dumped after every op (after the last op only for the histories that build rows of 255..1030 cells or tables of 255..300 rows); " +
 			"a case is non-trivial when the table ends with at least one row or a header; distinct = distinct history",
 		Exhaustive: "all valid histories of exactly 3 ops over the full alphabet (cell counts 0/1/2, distinct items) and exactly 4 ops over the reduced alphabet (cell counts 0/1, no NewRowSizedFor) in the quick tier, " +
 			"4 (full) and 5 (reduced) in the thorough tier; each is dumped after every op, so all shorter histories are covered as prefixes; " +
 			"all header / row contents of length <= 3 (4 thorough) over {two texts, the empty text} in 12 shapes, all header contents of length 4 (and 5) alone, all pairs of successive headers of length <= 2; " +
 			"every item type x every container length as the lone argument / first / second of two for AddHeaders, AddRowItems and Row.Add in 6 shapes; " +
+			"for each wrapper of the five sub-packages (by Wrap, by New) all histories of exactly 2 ops over the full alphabet, for auto.New of 8 styles over the reduced one (thorough: 3 ops, 52 ways of getting and using one wrapper); header width none/0..2 x row width 0..3 x 4 entry points x header before/after the row, on the core table (to 3 x 4) and through every wrapper; " +
+			"for each place of registration of a callback that returns an error all continuations of exactly 2 ops (3 thorough); " +
 			"for each of 40 callback registrations (where x what it does x for which targets) all continuations of exactly 2 ops (3 for the body-row 'total cell' callback; one more in the thorough tier) in which the callback can fire",
 		Gen: func(r *RNG, tier string) []json.RawMessage {
 			var out []json.RawMessage
@@ -1673,6 +1714,7 @@ func init() {
 			c02Callbacks(r, add, thorough)
 			c02TwoTables(r, add, thorough)
 			c02Sizes(r, addLast, thorough)
+			c02R6(r, func(sp C02Spec) { out = append(out, mustJSON(sp)) }, thorough)
 			if thorough {
 				c02Enum(4, true, add)
 				c02Enum(5, false, add)
@@ -1708,7 +1750,7 @@ func init() {
 			if c02HasCallbacks(cs.Ops) {
 				return c02RunCB(cs, spec)
 			}
-			o := c02Exec(cs.Ops, cs.LastOnly)
+			o := c02ExecVia(cs.Ops, cs.LastOnly, cs.Via)
 			var parts []string
 			for t := 0; t < o.ntables; t++ {
 				obs := "(Ok " + cqBytes(o.dumps[t]) + ")"
@@ -1722,7 +1764,7 @@ func init() {
 				parts = append(parts, "("+c02CoqHistory(o.hist[t])+", "+sched+", "+obs+")")
 			}
 			h := cqList(parts)
-			tags := c02Tags(cs.Ops, o.res)
+			tags := append(c02Tags(cs.Ops, o.res), cs.Via.tags()...)
 			if cs.LastOnly {
 				tags = append(tags, "dumped-after-last-op-only")
 			}
@@ -1743,7 +1785,10 @@ func init() {
 			}
 			var out []json.RawMessage
 			for _, h := range c02Shrink(cs.Ops) {
-				out = append(out, mustJSON(C02Spec{Ops: h, LastOnly: cs.LastOnly}))
+				out = append(out, mustJSON(C02Spec{Ops: h, LastOnly: cs.LastOnly, Via: cs.Via}))
+			}
+			for _, v := range cs.Via.shrink() {
+				out = append(out, mustJSON(C02Spec{Ops: cs.Ops, LastOnly: cs.LastOnly, Via: v}))
 			}
 			return out
 		},
